@@ -81,7 +81,8 @@ def plan(tier, seed):
             if tier == "quick" and len(alpha) > per_field:
                 # rotate through the alphabet across fields so that every alphabet entry is used
                 start = f["idx"] % len(alpha)
-                alpha = [alpha[(start + i * 5) % len(alpha)] for i in range(per_field)]
+                picks = sorted({(start + round(i * len(alpha) / per_field)) % len(alpha) for i in range(per_field)})
+                alpha = [alpha[i] for i in picks]
             for label, b in alpha:
                 cases.append({"spec": SPEC, "devs": [["led", inst, f["key"], {"hex": b.hex()}]], "label": f"{inst}.{f['key']}={label}"})
     # structural variants
